@@ -194,6 +194,35 @@ def row(c, r):
           cq(c['epsilon']), cbool(kind != 'rms'), clist([cZ(int(xf[i])) for i in grp]), clist([cbool(bool(mk[i])) for i in grp]),
           clist([cqz(sc[i]) for i in grp]), clist([cqz(bi[i]) for i in grp]), clist([cq(y[i]) if mk[i] else '0%Q' for i in grp])))
     return '(' + ' && '.join(parts) + ')' if parts else None
+  if layer == 'einsum':
+    x = np.array(c['x'], dtype=np.int64)
+    k = np.array(c['kernel'], dtype=np.int64)
+    y = np.array(g['data'])
+    if not is_int(y):
+      return None
+    lhs, res = c['eq'].replace(' ', '').split('->')
+    lhs, rhs = lhs.split(',')
+    nell = x.ndim - (len(lhs) - 3) if '...' in lhs else 0
+    ell = [100 + i for i in range(nell)]           # "..." expanded into explicit labels, as opt_einsum's parser does
+
+    def labels(t):
+      out = []
+      t = t.replace('...', '*')
+      for ch in t:
+        out += ell if ch == '*' else [ord(ch) - ord('a')]
+      return out
+    L, Rr, O = labels(lhs), labels(rhs), labels(res)
+    if len(L) != x.ndim or len(Rr) != k.ndim or len(O) != len(g['shape']):
+      return 'false'
+    sizes = {}
+    for lab, d in list(zip(L, x.shape)) + list(zip(Rr, k.shape)):
+      sizes[lab] = int(d)
+    cl = lambda ls: clist([cnat(v) for v in ls])
+    zl = lambda a: clist([cZ(int(v)) for v in np.asarray(a).reshape(-1)])
+    return '(list_beq Z.eqb (einsum_layer %s %s %s %s %s %s %s) %s && list_beq Nat.eqb (shape_of %s %s) %s)' % (
+        clist(['(%s, %s)' % (cnat(a), cnat(b)) for a, b in sorted(sizes.items())]), cl(L), cl(Rr), cl(O), zl(x), zl(k),
+        copt(zl(c['bias']) if c['use_bias'] else None), zl(y.astype(np.int64)),
+        clist(['(%s, %s)' % (cnat(a), cnat(b)) for a, b in sorted(sizes.items())]), cl(O), clist([cnat(int(d)) for d in g['shape']]))
   if layer == 'dropout':
     x = np.array(c['x'], dtype=np.int64)
     nd = x.ndim
